@@ -389,4 +389,98 @@ theorem readCsvRecs_faithful (cfg : Cfg) (o : NumOracle F) (outIdx : Option Nat)
       | cons a b => rfl
     simp [colNames, freshCols, this, Function.comp_def]
 
+/-! ### reading `specRows` row by row -/
+
+theorem specRows_zip_inputs (o : NumOracle F) (D : List Dom) : ∀ (rows' : List (List Str)) (m : ClassMap),
+    (∀ r' ∈ rows', r' ≠ []) →
+    ∀ p ∈ rows'.zip (specRows o D m rows').2, p.2.input = inputVals o D.tail p.1.tail := by
+  intro rows'
+  induction rows' with
+  | nil => intro m _ p hp; simp [specRows] at hp
+  | cons r' rows' ih =>
+    intro m hne p hp
+    cases r' with
+    | nil => exact absurd rfl (hne [] (by simp))
+    | cons v0 vs =>
+      simp only [specRows, List.zip_cons_cons, List.mem_cons] at hp
+      rcases hp with rfl | hp
+      · rfl
+      · exact ih _ (fun x hx => hne x (by simp [hx])) p hp
+
+theorem specRows_zip_regr (o : NumOracle F) (D : List Dom) : ∀ (rows' : List (List Str)) (m : ClassMap),
+    (∀ r' ∈ rows', r' ≠ []) → Regr o D rows' →
+    ∀ p ∈ rows'.zip (specRows o D m rows').2,
+      p.2.output = if outDom D = .void then .void else cellVal o (outDom D) (p.1.headD []) := by
+  intro rows'
+  induction rows' with
+  | nil => intro m _ _ p hp; simp [specRows] at hp
+  | cons r' rows' ih =>
+    intro m hne h p hp
+    have hrest : Regr o D rows' := by
+      rcases h with h | h
+      · exact Or.inl h
+      · exact Or.inr (fun x hx => h x (by simp [hx]))
+    cases r' with
+    | nil => exact absurd rfl (hne [] (by simp))
+    | cons v0 vs =>
+      simp only [specRows, List.zip_cons_cons, List.mem_cons] at hp
+      rcases hp with rfl | hp
+      · simp only [List.headD_cons]
+        unfold outVal
+        rcases h with h | h
+        · simp [h]
+        · have := h (v0 :: vs) (by simp)
+          simp only [List.headD_cons] at this
+          simp only [this, Bool.true_eq_false, if_false]
+          split <;> rfl
+      · exact ih _ (fun x hx => hne x (by simp [hx])) hrest p hp
+
+theorem specRows_zip_classif (o : NumOracle F) (D : List Dom) : ∀ (rows' : List (List Str)) (m : ClassMap),
+    (∀ r' ∈ rows', r' ≠ []) → ClassInv m → Classif o D rows' →
+    ∀ p ∈ rows'.zip (specRows o D m rows').2,
+      ∃ id : Nat, p.2.output = .int id ∧ (trim (p.1.headD []), id) ∈ (specRows o D m rows').1 := by
+  intro rows'
+  induction rows' with
+  | nil => intro m _ _ _ p hp; simp [specRows] at hp
+  | cons r' rows' ih =>
+    intro m hne hinv h p hp
+    have hrest : Classif o D rows' := ⟨h.1, fun x hx => h.2 x (by simp [hx])⟩
+    cases r' with
+    | nil => exact absurd rfl (hne [] (by simp))
+    | cons v0 vs =>
+      have hn := h.2 (v0 :: vs) (by simp)
+      simp only [List.headD_cons] at hn
+      have hov : outVal o m (outDom D) v0 =
+          (.int (encode m (trim v0)).1, (encode m (trim v0)).2) := by
+        unfold outVal; simp [h.1, hn]
+      simp only [specRows, hov, List.zip_cons_cons, List.mem_cons] at hp ⊢
+      rcases hp with rfl | hp
+      · refine ⟨(encode m (trim v0)).1, rfl, ?_⟩
+        obtain ⟨_, ⟨t, ht⟩, _⟩ := specRows_classif o D rows' (encode m (trim v0)).2 (encode_inv m hinv _) hrest
+        simp only [List.headD_cons]
+        rw [ht]
+        exact List.mem_append_left _ (encode_mem m (trim v0))
+      · exact ih _ (fun x hx => hne x (by simp [hx])) (encode_inv m hinv _) hrest p hp
+
+theorem inputVals_noVoid (o : NumOracle F) : ∀ (ds : List Dom) (xs : List Str), (∀ d ∈ ds, d ≠ .void) →
+    inputVals o ds xs = List.zipWith (cellVal o) ds xs := by
+  intro ds
+  induction ds with
+  | nil => intro xs _; cases xs <;> rfl
+  | cons d ds ih =>
+    intro xs h
+    cases xs with
+    | nil => rfl
+    | cons x xs =>
+      have hd := h d (by simp)
+      simp only [inputVals, hd, if_false, List.zipWith_cons_cons, ih xs (fun d' hd' => h d' (by simp [hd']))]
+
+theorem prep_ne_nil (outIdx : Option Nat) (r : List Str) (h : r ≠ []) : prep outIdx r ≠ [] := by
+  intro hp
+  have := prep_length outIdx r
+  rw [hp] at this
+  cases r with
+  | nil => exact h rfl
+  | cons a b => simp at this; omega
+
 end Vita.C09
